@@ -28,11 +28,11 @@ type tierCfg struct {
 	MaxNonNull int      // states with more non-null slots are outside the explored space
 	Inits      []string // initial module graphs
 	NoCache    []bool   // runtime configurations
-	Full       bool     // full alphabet (thorough); quick leaves out 6 of the 15 store operations and close-cache-from-a-host-function
+	Full       bool     // full alphabet (thorough); quick leaves out 7 of the 15 store operations and close-cache-from-a-host-function
 }
 
 // store operations of the quick alphabet: one per (edge class, slot kind) — see NOTES.md
-var quickStores = map[int]bool{0: true, 1: true, 3: true, 6: true, 7: true, 8: true, 10: true, 11: true, 13: true}
+var quickStores = map[int]bool{0: true, 1: true, 3: true, 6: true, 7: true, 8: true, 10: true, 11: true}
 
 func (c tierCfg) alphabet() []op {
 	var out []op
@@ -184,7 +184,7 @@ func rerun(h history, eng int) (res caseResult, crash *fw.Crash) {
 	if os.Getenv("C09_NOCLOBBER") == "1" { // demonstration only: freed records keep their contents until reused
 		env = []string{"GOMAXPROCS=1", "GOGC=off"}
 	}
-	cmd.Env = append(append(os.Environ(), env...), "C09_RUNONE="+string(js))
+	cmd.Env = append(append(os.Environ(), env...), "C09_RUNONE="+string(js), failWritesEnv())
 	var stdout, stderr bytes.Buffer
 	cmd.Stdout, cmd.Stderr = &stdout, &stderr
 	if err := cmd.Start(); err != nil {
@@ -290,7 +290,7 @@ func (e *explorer) runLayer(depth int, hs []history) (results [][2]*caseResult, 
 	}
 	skipped := false
 	done := fw.Supervise(fw.SupOpts{N: n, Workers: workers, CaseTimeout: 5 * time.Minute, Mode: "layer",
-		Env:  append([]string{"C09_FRONTIER=" + fpath, "C09_MARKDIR=" + markdir, fmt.Sprintf("C09_DEADLINE=%d", e.run.Deadline.UnixNano())}, childEnv...),
+		Env:  append([]string{"C09_FRONTIER=" + fpath, "C09_MARKDIR=" + markdir, fmt.Sprintf("C09_DEADLINE=%d", e.run.Deadline.UnixNano()), failWritesEnv()}, childEnv...),
 		Stop: func() bool { return e.run.Expired() }},
 		func(i int, res string, crash *fw.Crash) {
 			if crash != nil {
@@ -386,7 +386,7 @@ func (e *explorer) report(h history, eng int, r *caseResult) {
 func hasLifetimeOp(h history) bool {
 	for _, o := range h.Ops {
 		switch o.K {
-		case kCloseInst, kCloseComp, kCloseCache, kCloseRt, kDrop, kGC, kReenter:
+		case kCloseInst, kCloseComp, kCloseCache, kCloseRt, kDrop, kGC, kReenter, kFailInst:
 			return true
 		}
 	}
@@ -506,16 +506,66 @@ func (e *explorer) explore() {
 	}
 }
 
+// calibrate finds out, on the tree under test, whether D's element segment takes effect before each kind of failure
+// (a world in which nothing is ever closed or collected: safe to run in this process). The model needs it only to
+// name the content of A.tab[0]; verdicts always come from the comparison with the twin.
+func calibrate() {
+	for k := 0; k < nFailKinds; k++ {
+		w := newWorld(false, 1, false, [3]bool{true, false, false})
+		if r := w.do(op{K: kInst, X: mA}); r != "ok" {
+			fw.Fatalf("calibration: instantiate A: %s", r)
+		}
+		if r := w.do(op{K: kFailInst, X: k, A: viaKeptCompiled}); !strings.HasPrefix(r, "inst-failed:") || strings.HasPrefix(r, "inst-failed:compile") {
+			fw.Fatalf("calibration: failing instantiation %s: %s", failKindNames[k], r)
+		}
+		_, out := w.call(mA, "call_t")
+		switch out {
+		case fmt.Sprintf("v:%d", valD):
+			failWrites[k] = true
+		case "trap:invalid table access":
+			failWrites[k] = false
+		default:
+			fw.Fatalf("calibration: A.call_t after failing instantiation %s: %s", failKindNames[k], out)
+		}
+		w.teardown()
+	}
+}
+
+func failWritesEnv() string {
+	b := []byte("C09_FAILWRITES=")
+	for _, v := range failWrites {
+		if v {
+			b = append(b, '1')
+		} else {
+			b = append(b, '0')
+		}
+	}
+	return string(b)
+}
+
+func loadFailWrites() {
+	v := os.Getenv("C09_FAILWRITES")
+	if len(v) != nFailKinds {
+		fw.Fatalf("C09_FAILWRITES missing")
+	}
+	for i := range failWrites {
+		failWrites[i] = v[i] == '1'
+	}
+}
+
 func main() {
 	if len(os.Args) > 1 && os.Args[1] == "runone" {
+		loadFailWrites()
 		runOne()
 		return
 	}
 	if fw.IsChild() {
+		loadFailWrites()
 		childMain()
 		return
 	}
 	run := fw.Start("C09", "model_checking")
+	calibrate()
 	if len(os.Args) > 2 && os.Args[1] == "replay" {
 		replayFile(os.Args[2])
 		return
@@ -552,7 +602,8 @@ func main() {
 			"transitions = executed (history, engine) cases with >= 1 operation, each executes the implementation; in every reached state all probe calls (self-loops) are executed twice (before/after a forced collection)",
 		Samples: e.samples.List(), Exhaustive: true, Outcomes: e.outcomes.Map(),
 		Bounds: map[string]any{"max_operations": e.cfg.Depth, "alphabet": len(e.ops), "alphabet_ops": opNames(e.ops), "max_non_null_slots": e.cfg.MaxNonNull, "initial_graphs": e.cfg.Inits,
-			"runtime_without_cache": e.cfg.NoCache, "engines": engineNames, "modules": 3, "slots": slotNames, "function_values": fnNames},
+			"runtime_without_cache": e.cfg.NoCache, "engines": engineNames, "modules": 3, "slots": slotNames, "function_values": fnNames,
+			"element_segment_applied_before_failure(calibrated)": map[string]bool{failKindNames[0]: failWrites[0], failKindNames[1]: failWrites[1], failKindNames[2]: failWrites[2]}},
 		Extra: extra,
 	}, []string{
 		"each named module is instantiated at most once per history (re-instantiation under the same name is not explored); the initial graphs supply already-instantiated modules",
